@@ -701,12 +701,18 @@ fn float_arith(case: &mut Case, rng: &mut Rng, is32: bool, n: usize) {
 /// float arithmetic written directly on LITERAL operands (the emitted Go is a constant expression there), with whole
 /// and fractional values: `1.0 / 2.0` is 0.5; plus negative zero
 fn float_literal_arith(case: &mut Case, is32: bool) {
-    let vals: [f64; 12] = [1.0, 2.0, 7.0, 0.5, 3.0, 10.0, 0.25, 100.0, 1.5, 4.0, 0.125, 9.0];
+    // the first twelve are exact in binary; the others are not (0.1 + 0.2 is 0.30000000000000004 in float64 and
+    // 0.1f32 + 0.6f32 is 0.70000005f32: arithmetic happens on the operand type's values, not on the decimals written;
+    // added after a seeded change that emitted float32 literals by their shortest decimal)
+    let vals: [f64; 23] = [1.0, 2.0, 7.0, 0.5, 3.0, 10.0, 0.25, 100.0, 1.5, 4.0, 0.125, 9.0, 0.1, 0.2, 0.3, 0.6, 0.7, 1.1, 2.675, 0.05, 33.3, 0.9, 1000000.1];
     let mut lines = Vec::new();
     let mut descr = Vec::new();
     let spell = |v: f64| -> Option<String> { if is32 { f32_src(v as f32) } else { f64_src(v) } };
     for a in vals {
+        // an operand is the value the literal denotes at its type
+        let a = if is32 { (a as f32) as f64 } else { a };
         for b in vals {
+            let b = if is32 { (b as f32) as f64 } else { b };
             for op in ["+", "-", "*", "/"] {
                 let r = if is32 {
                     let (x, y) = (a as f32, b as f32);
